@@ -16,12 +16,17 @@ class Livelock(Exception):
     pass
 
 
+class Injected(Exception):
+    """what a body that `ends by an exception` raises"""
+
+
 class _AsyncioProxy:
     """stands for the `asyncio` module inside rate_limiter.py only: counts sleeps (measurement) and aborts a zero-delay livelock"""
 
     def __init__(self):
         self.sleeps = {}
         self.zero = 0
+        self.attempts = []     # task names in the order their loop-body iterations happened (refused ones: seen here)
 
     def __getattr__(self, name):
         return getattr(asyncio, name)
@@ -29,6 +34,7 @@ class _AsyncioProxy:
     async def sleep(self, delay, result=None):
         t = asyncio.current_task()
         self.sleeps[t.get_name()] = self.sleeps.get(t.get_name(), 0) + 1
+        self.attempts.append(t.get_name())
         if delay <= 0:
             self.zero += 1
             if self.zero > 2000:
@@ -45,21 +51,26 @@ class C24(Prop):
     design_ref = 'DESIGN.md §4 C24'
     technique = ('Lean 4 proof by induction over op lists of a state-machine model over an integer clock whose steps are the atomic blocks '
                  'between awaits + differential correspondence with the real class under a virtual clock')
-    level_text = ('Theorems for all op lists (all arrival times, any number of concurrent entrants, any wake-up order and lateness), all '
+    level_text = ('Theorems for all op lists (all arrival times, any number of concurrent entrants, any wake-up order and lateness, any way a body ends), all '
                   'counts and window lengths: every half-open window (x-W, x] and [x, x+W) contains at most `count` admissions; an attempt '
                   'admits iff (now-W, now] has room; during every sleep every instant sees a full window and the sleep has positive length. '
-                  'Only the closed window [x, x+W] can hold count+1 (example). The model is tied to the real RateLimiter by comparing '
-                  'admission times under a virtual clock (time.time patched), arrivals on a W/4 grid with jitter, 1-6 concurrent entrants.')
+                  'Only the closed window [x, x+W] can hold count+1 (example). Op lists include bodies ending normally, by exception and by '
+                  'cancellation, and cancellation of waiting entrants: an admission is final (the log is never shortened, leaving a body changes '
+                  'nothing). The model is tied to the real RateLimiter by comparing admission times under a virtual clock (time.time patched), '
+                  'arrivals on a W/4 grid with jitter, 1-6 concurrent entrants, timed bodies, injected exceptions and cancellations.')
     level_note = ('Trusted: Lean kernel; the hand-written model RateLimit agrees with the Python class only as far as the correspondence cases '
                   'show; times quantised to 2^-10 s so that float arithmetic is exact; time.time() assumed monotone; asyncio timers fire '
                   'exactly when due under the virtual clock.')
     budget = {'quick': 4000, 'thorough': 60000}
     search_budget = {'quick': 4000, 'thorough': 40000}
-    rule = ('case = (count, W in ticks of 2^-10 s, list of (delay, number of entrants arriving together), tail); each entrant is a task '
-            '`async with limiter: record time`; after each arrival the loop is settled without advancing the clock, `advance` moves the '
-            'virtual clock firing timers in order; compared: admit/sleep per arrival, admission times per advance, number still sleeping; '
-            'non-trivial = at least one entrant had to sleep; distinct by full case')
+    rule = ('case = (count, W in ticks of 2^-10 s, timed events, tail); event = n entrants arrive together (each a task `async with '
+            'limiter: record time; await asyncio.sleep(d); [raise]`) or entrant k is cancelled (Task.cancel, inside its body or while it '
+            'waits in __aenter__); after each event the loop is settled without advancing the clock, `advance` moves the virtual clock '
+            'firing timers in order; compared: admit/sleep per arrival, where a cancel hit, admission times per advance, number still '
+            'waiting / in a body; non-trivial = somebody had to sleep or an admitted entrant was cancelled; distinct by full case')
     trusted = ['harness/aloop.py virtual clock (VLoop) and patch_time (time.time -> loop clock)',
+               'the order among sleepers woken at the same instant (asyncio timer heap) is observed on the real run and given to the model '
+               'driver as a tie-break hint; the theorems hold for every order',
                'the `asyncio` name inside rate_limiter.py is replaced by a delegating proxy that counts sleep() calls']
     assumptions = ['time.time() is monotone and timers fire exactly when due (virtual clock)', 'count >= 1',
                    'all times are multiples of 2^-10 s (no float rounding in now - window)']
@@ -73,6 +84,8 @@ class C24(Prop):
         self._traces = {}
 
     # ---- generation ----------------------------------------------------------------------------
+    # events: [dt, 'a', n, d, e]  after dt ticks n entrants arrive together; each body lasts d ticks and ends by an exception iff e
+    #         [dt, 'c', k]        after dt ticks entrant k (numbered in arrival order) is cancelled (in its body or while it waits)
     def _random_case(self, rng):
         W = rng.choice([4, 8, 8, 16, 40, 1024])
         count = rng.choice([1, 1, 2, 2, 3, 5])
@@ -83,6 +96,7 @@ class C24(Prop):
         events = []
         total = 0
         style = rng.random()
+        p_cancel = rng.choice([0.0, 0.15, 0.35])
         for _ in range(n_ev):
             if style < 0.3:
                 g = rng.choice([0, 1, 1, 2, 4])            # dense: bursts inside one window
@@ -93,25 +107,35 @@ class C24(Prop):
             dt = g * q
             if rng.random() < 0.35:
                 dt = max(0, dt + rng.choice([-1, 1, -2, 2]))
-            k = rng.choice([1, 1, 2, 3, 4, 6])
-            events.append([dt, k])
-            total += k
-        tail = (total // max(count, 1) + 2) * W + rng.choice([0, 1, 3])
+            if total and rng.random() < p_cancel:
+                k = max(0, total - 1 - rng.choice([0, 0, 1, 2, 3, 5])) if rng.random() < 0.9 else rng.randrange(total + 2)
+                events.append([rng.choice([0, 1, q, dt]), 'c', k])
+                continue
+            n = rng.choice([1, 1, 2, 3, 4, 6])
+            d = rng.choice([0, 0, 1, q, 2 * q, W, W + 1, 3 * W])
+            events.append([dt, 'a', n, d, 1 if rng.random() < 0.15 else 0])
+            total += n
+        longest = max([e[3] for e in events if e[1] == 'a'] + [0])
+        tail = (total // max(count, 1) + 2) * W + longest + rng.choice([0, 1, 3])
         return {'count': count, 'W': W, 'events': events, 'tail': tail}
 
-    def _exhaustive(self, count, W, n_ev):
-        """all event lists of n_ev events with delays on the W/4 grid 0..5/4 W (+ the two off-grid neighbours of W) and 1..3 entrants"""
+    def _exhaustive(self, count, W, n_ev, small=False):
+        """all event lists of n_ev events over a small alphabet: arrivals (delay on the W/4 grid and next to W, 1-2 entrants, body
+        shorter / longer than a window) and cancellations of entrant 0..2 right away or one tick later"""
         q = W // 4
-        delays = [0, q, 2 * q, 3 * q, W - 1, W, W + 1, 5 * q]
+        delays = [0, q, W] if small else [0, q, W - 1, W, W + 1]
+        alphabet = [[dt, 'a', n, d, 0] for dt in delays for n in (1, 2) for d in (0, W + q)]
+        alphabet += [[dt, 'c', k] for dt in (0, 1) for k in ((0, 1) if small else (0, 1, 2))]
         out = []
 
         def rec(evs, total):
             if len(evs) == n_ev:
-                out.append({'count': count, 'W': W, 'events': [list(e) for e in evs], 'tail': (total // count + 2) * W})
+                out.append({'count': count, 'W': W, 'events': [list(e) for e in evs], 'tail': (total // count + 3) * W + q})
                 return
-            for d in delays:
-                for k in (1, 2, 3):
-                    rec(evs + [[d, k]], total + k)
+            for e in alphabet:
+                if e[1] == 'c' and e[2] >= total:
+                    continue
+                rec(evs + [e], total + (e[2] if e[1] == 'a' else 0))
         rec([], 0)
         return out
 
@@ -119,27 +143,39 @@ class C24(Prop):
         if tier == 'thorough':
             for count in (1, 2):
                 yield from self._exhaustive(count, 8, 3)
+            yield from self._exhaustive(1, 8, 4, small=True)
         else:
-            yield from self._exhaustive(1, 8, 2)
+            yield from self._exhaustive(1, 8, 3, small=True)
         for _ in range(n):
             yield self._random_case(rng)
 
     def search_cases(self, rng, n, hint):
         for count in (1, 2):
-            yield from self._exhaustive(count, 8, 2)
+            yield from self._exhaustive(count, 8, 3, small=True)
         for _ in range(n):
             yield self._random_case(rng)
 
     # ---- model ---------------------------------------------------------------------------------
     def model_lines(self, c):
+        # the order in which the event loop ran sleepers that were due at the same instant (asyncio's timer-heap order) is an
+        # input of the schedule, not a property of the limiter: it is observed on the real run and passed to the model as a
+        # tie-break hint for each `advance`
+        try:
+            hints = list(self._get_trace(c).get('hints', []))
+        except Exception:      # the real run raised (reported through impl/oracle as IMPL-EXC): no observation, no hints
+            hints = []
+        hint = lambda: ''.join(f' {i}' for i in (hints.pop(0) if hints else []))
         out = ['reset', f"cfg {c['count']} {c['W']}"]
         k = 0
-        for dt, n in c['events']:
-            out.append(f'advance {dt}')
-            for _ in range(n):
-                out.append(f'arrive {k}')
-                k += 1
-        out.append(f"advance {c['tail']}")
+        for ev in c['events']:
+            out.append(f'advance {ev[0]}' + hint())
+            if ev[1] == 'a':
+                for _ in range(ev[2]):
+                    out.append(f'arrive {k} {ev[3]} {ev[4]}')
+                    k += 1
+            else:
+                out.append(f'cancel {ev[2]}')
+        out.append(f"advance {c['tail']}" + hint())
         return out
 
     # ---- real code -----------------------------------------------------------------------------
@@ -151,7 +187,7 @@ class C24(Prop):
         return int(x)
 
     def _trace(self, c):
-        """run the real RateLimiter; returns (lines, trace) with trace = arrival/admission tick per entrant"""
+        """run the real RateLimiter; returns (lines, trace) with trace = arrival/admission/cancellation tick per entrant"""
         s = aloop.Sched()
         proxy = _AsyncioProxy()
         saved = self.mod.asyncio
@@ -160,41 +196,75 @@ class C24(Prop):
         try:
             with aloop.patch_time(s.loop):
                 limiter = self.mod.RateLimiter(self.mod.RateLimit(c['count'], c['W'] * TICK))
-                arrive, admit, order = {}, {}, []
+                arrive, admit, order, inside = {}, {}, [], set()
+                cancelled_waiting, cancelled_body, failed = {}, {}, 0
 
-                async def entrant(k):
+                async def entrant(k, d, exc):
                     async with limiter:
                         admit[k] = self._tick(s.loop._vtime)
                         order.append(k)
+                        proxy.attempts.append(str(k))
+                        inside.add(k)
+                        try:
+                            await asyncio.sleep(d * TICK)      # the rate-limited call itself (harness timer, real asyncio.sleep)
+                            if exc:
+                                raise Injected()
+                        finally:
+                            inside.discard(k)
 
                 def check():
                     for t in tasks:
-                        if t.done() and not t.cancelled() and t.exception() is not None and not isinstance(t.exception(), IndexError):
+                        if t.done() and not t.cancelled() and t.exception() is not None \
+                                and not isinstance(t.exception(), (IndexError, Injected)):
                             raise t.exception()
+
+                hints = []
 
                 def adv(dt):
                     n0 = len(order)
+                    a0 = len(proxy.attempts)
                     s.advance(dt * TICK)
+                    hints.append([int(x) for x in proxy.attempts[a0:]])
                     check()
-                    sleeping = sum(1 for t in tasks if not t.done())
-                    return f"t={self._tick(s.loop._vtime)} adm={','.join(str(admit[k]) for k in order[n0:])} sleeping={sleeping}"
+                    sleeping = sum(1 for k, t in enumerate(tasks) if not t.done() and k not in admit)
+                    return (f"t={self._tick(s.loop._vtime)} adm={','.join(str(admit[k]) for k in order[n0:])} sleeping={sleeping} "
+                            f"body={len(inside)}")
 
                 out = ['ok', 'ok']
                 k = 0
-                for dt, n in c['events']:
-                    out.append(adv(dt))
-                    for _ in range(n):
-                        arrive[k] = self._tick(s.loop._vtime)
-                        t = s.spawn(k, entrant(k))
-                        tasks.append(t)
-                        check()
-                        if t.done() and isinstance(t.exception(), IndexError):
-                            out.append('err IndexError')
+                for ev in c['events']:
+                    out.append(adv(ev[0]))
+                    if ev[1] == 'a':
+                        for _ in range(ev[2]):
+                            arrive[k] = self._tick(s.loop._vtime)
+                            t = s.spawn(k, entrant(k, ev[3], ev[4]))
+                            tasks.append(t)
+                            check()
+                            if t.done() and not t.cancelled() and isinstance(t.exception(), IndexError):
+                                out.append('err IndexError')
+                            else:
+                                out.append('admit' if k in admit else 'sleep')
+                            k += 1
+                    else:
+                        j = ev[2]
+                        if j >= len(tasks) or tasks[j].done():
+                            out.append('err')
                         else:
-                            out.append('admit' if k in admit else 'sleep')
-                        k += 1
+                            now = self._tick(s.loop._vtime)
+                            if j in inside:
+                                cancelled_body[j] = now
+                                out.append('cancel body')
+                            else:
+                                cancelled_waiting[j] = now
+                                out.append('cancel wait')
+                            s.cancel(j)
+                            check()
+                            if not tasks[j].done():
+                                raise AssertionError(f'entrant {j} survived its cancellation')
                 out.append(adv(c['tail']))
+                failed = sum(1 for t in tasks if t.done() and not t.cancelled() and isinstance(t.exception(), Injected))
                 trace = {'arrive': arrive, 'admit': admit, 'end': self._tick(s.loop._vtime),
+                         'hints': hints, 'cancel_wait': cancelled_waiting, 'cancel_body': cancelled_body, 'failed': failed,
                          'resleep': sum(1 for v in proxy.sleeps.values() if v >= 2), 'slept': len(proxy.sleeps)}
                 return out, trace
         finally:
@@ -224,19 +294,25 @@ class C24(Prop):
         if count < 1:
             return None   # outside the quantifier
         tr = self._get_trace(c)
+        # every admission counts, whatever happened to its body afterwards (finished, raised, cancelled)
         A = sorted(tr['admit'].values())
         # half-open windows: it suffices to anchor them at admission times (the count of a sliding window changes only there)
         for t in sorted(set(A)):
-            n = sum(1 for a in A if t - W < a <= t)
-            if n > count:
-                return f'{n} admissions in the window ({t - W}, {t}] ticks, rate is {count} per {W} ticks'
-            n = sum(1 for a in A if t <= a < t + W)
-            if n > count:
-                return f'{n} admissions in the window [{t}, {t + W}) ticks, rate is {count} per {W} ticks'
-        # as soon as possible: at no instant between arrival and admission was there room
+            for lo, hi, inwin, shown in ((t - W, t, lambda a: t - W < a <= t, f'({t - W}, {t}]'),
+                                         (t, t + W, lambda a: t <= a < t + W, f'[{t}, {t + W})')):
+                who = sorted(k for k, a in tr['admit'].items() if inwin(a))
+                if len(who) > count:
+                    note = [f"{k}@{tr['admit'][k]}" + (' (cancelled in its body)' if k in tr['cancel_body'] else '') for k in who]
+                    return f"{len(who)} admissions in the window {shown} ticks, rate is {count} per {W} ticks: {', '.join(note)}"
+        # as soon as possible: at no instant between arrival and admission (or cancellation while waiting) was there room
         end = tr['end']
         for k, r in sorted(tr['arrive'].items()):
-            t = tr['admit'].get(k, end + 1)
+            if k in tr['admit']:
+                t, when = tr['admit'][k], f"admitted only at {tr['admit'][k]}"
+            elif k in tr['cancel_wait']:
+                t, when = tr['cancel_wait'][k], f"still waiting when it was cancelled at {tr['cancel_wait'][k]}"
+            else:
+                t, when = end + 1, f'still not admitted at {end}'
             if t < r:
                 return f'entrant {k} admitted at {t} before it arrived at {r}'
             instants = sorted({r} | {a + W for a in A if r < a + W})
@@ -244,7 +320,6 @@ class C24(Prop):
                 if x >= t or x > end:
                     break
                 if sum(1 for a in A if x - W < a <= x) < count:
-                    when = f'admitted only at {t}' if k in tr['admit'] else f'still not admitted at {end}'
                     return (f'entrant {k} arrived at {r} and was {when}, although at {x} the window ({x - W}, {x}] held fewer than '
                             f'{count} admissions')
         return None
@@ -265,13 +340,25 @@ class C24(Prop):
             tags.append('closed-window-holds-count+1')
         if any(sum(1 for a in A if t - W < a <= t) == count for t in set(A)):
             tags.append('half-open-window-full')
-        if any(n > 1 for _, n in c['events']):
+        if any(e[1] == 'a' and e[2] > 1 for e in c['events']):
             tags.append('concurrent-entrants')
-        if any('err' in l for l in out):
+        if tr['cancel_body']:
+            tags.append('cancel-in-body')
+            # the schedule on which a "slot given back" would show: somebody arrives within the window of a cancelled admission
+            if any(tr['admit'][k] <= r < tr['admit'][k] + W and r >= x for k, x in tr['cancel_body'].items()
+                   for r in tr['arrive'].values()):
+                tags.append('arrival-within-window-of-cancelled-admission')
+        if tr['cancel_wait']:
+            tags.append('cancel-while-waiting')
+        if tr['failed']:
+            tags.append('body-exit-by-exception')
+        if 'err' in out:
+            tags.append('cancel-of-finished-task(no-op)')
+        if any(l.startswith('err Index') for l in out):
             tags.append('IndexError(count=0)')
         if not tr['slept']:
             tags.append('never-slept')
-        return (key if tr['slept'] else None, tags)
+        return (key if tr['slept'] or tr['cancel_body'] else None, tags)
 
     def finding_key(self, c, msg):
         return json.dumps(c, sort_keys=True)
@@ -279,17 +366,38 @@ class C24(Prop):
     def shrink(self, c, fails):
         if not fails(c):
             return c
-        evs = generic_shrink_list(c['events'], lambda e: fails({**c, 'events': e}))
-        cur = {**c, 'events': evs}
+
+        def renumber(evs, dropped_at):
+            """after dropping the arrival event at index `dropped_at`, cancel targets behind it shift down"""
+            first = sum(e[2] for e in evs[:dropped_at] if e[1] == 'a')
+            n = evs[dropped_at][2] if evs[dropped_at][1] == 'a' else 0
+            out = []
+            for i, e in enumerate(evs):
+                if i == dropped_at:
+                    continue
+                if e[1] == 'c' and n:
+                    if first <= e[2] < first + n:
+                        return None
+                    if e[2] >= first + n:
+                        e = [e[0], 'c', e[2] - n]
+                out.append(list(e))
+            return out
+
+        cur = {**c, 'events': [list(e) for e in c['events']]}
         changed = True
         while changed:
             changed = False
-            for i, (dt, n) in enumerate(cur['events']):
-                for cand in ([dt, n - 1] if n > 1 else None, [0, n] if dt else None):
-                    if cand is None:
-                        continue
-                    e2 = cur['events'][:i] + [cand] + cur['events'][i + 1:]
-                    if fails({**cur, 'events': e2}):
+            for i, e in enumerate(cur['events']):
+                cands = [renumber(cur['events'], i)]
+                if e[1] == 'a':
+                    if e[2] > 1 and not any(x[1] == 'c' for x in cur['events']):
+                        cands.append(cur['events'][:i] + [[e[0], 'a', e[2] - 1, e[3], e[4]]] + cur['events'][i + 1:])
+                    if e[4]:
+                        cands.append(cur['events'][:i] + [[e[0], 'a', e[2], e[3], 0]] + cur['events'][i + 1:])
+                if e[0]:
+                    cands.append(cur['events'][:i] + [[0] + list(e[1:])] + cur['events'][i + 1:])
+                for e2 in cands:
+                    if e2 is not None and e2 != cur['events'] and fails({**cur, 'events': e2}):
                         cur = {**cur, 'events': e2}
                         changed = True
                         break
